@@ -181,9 +181,12 @@ int main(int argc, char **argv)
     /* coefficient generators on a grid of fc*ts = 10^e, e = -20..20, several splits of the product */
     for (int e = -20; e <= 20; ++e)
     {
-        for (int s = -6; s <= 6; s += 3)
+        for (int s = -6; s <= 12; s += 3)
         {
             double fc = pow(10.0, (e + s) / 2.0 + (((e + s) % 2) ? 0.5 : 0.0)), ts = pow(10.0, e) / fc;
+            /* the last two rounds put the cut-off frequency resp. the sampling time at the end of the floating-point range */
+            if (s == 9) { fc = 1e308; ts = pow(10.0, e) / fc; }
+            if (s == 12) { ts = 1e308; fc = pow(10.0, e) / ts; }
             if (!(fc > 0) || !(ts > 0) || !isfinite(fc) || !isfinite(ts)) { continue; }
             FILE *f = out();
             fprintf(f, "{\"f\":\"gen\",\"e\":%d,\"lpf\":", e);
